@@ -10,6 +10,7 @@ import SkNet.Lemmas.Valid
 import SkNet.Lemmas.Paris
 import SkNet.Lemmas.Reorder
 import SkNet.Lemmas.GetDendroMono
+import SkNet.Lemmas.Builders
 
 namespace SkNet.C07
 open SkNet SkNet.Dendro SkNet.Hier
@@ -294,5 +295,31 @@ theorem louvain_pipeline_valid (ts : List Tree) (n : Nat) (hwf : WF (.node ts))
 example : (treePipeline (.node [.node [.leaf 0, .node [.leaf 1, .leaf 4]], .node [.leaf 2, .leaf 3]])).toOption.map
       (fun D => (D.map fun r => (r.i, r.j, r.h, r.s), ValidDendro 5 D && heightsSorted D))
     = some ([(4, 1, 1, 2), (3, 2, 2, 2), (5, 0, 2, 3), (6, 7, 3, 5)], true) := by decide
+
+
+/-- **LouvainIteration** (non-bipartite input, `n ≥ 2` nodes): for every behaviour of Louvain (`oracle`: one label
+    per node of the sub-graph it is given), every `depth` and every graph (`hasEdge`), the tree built by
+    `_recursive_louvain` followed by `get_dendrogram`, the height shift and `reorder_dendrogram` is a valid dendrogram
+    over the `n` nodes with non-decreasing heights. -/
+theorem louvainIteration_valid (hasEdge : List Nat → Bool) (oracle : List Nat → List Nat)
+    (ho : ∀ nodes, (oracle nodes).length = nodes.length) (depth : Int) (n : Nat) (hn : 2 ≤ n) :
+    ∃ D, treePipeline (recursiveLouvain hasEdge oracle (n + 1) depth (List.range n)) = .ok D ∧
+      ValidDendro n D = true ∧ heightsSorted D = true := by
+  obtain ⟨hwf, hperm⟩ := recursiveLouvain_wf hasEdge oracle ho (n + 1) depth (List.range n)
+    (by intro e; have := congrArg List.length e; simp at this; omega) (by simp)
+  cases ht : recursiveLouvain hasEdge oracle (n + 1) depth (List.range n) with
+  | leaf k =>
+    rw [ht] at hperm
+    have := hperm.length_eq
+    simp [tleaves] at this
+    omega
+  | node ts =>
+    rw [ht] at hwf hperm
+    exact louvain_pipeline_valid ts n hwf hperm
+
+/-- non-vacuity: an oracle that splits every node list in two halves -/
+example : ((treePipeline (recursiveLouvain (fun _ => true)
+      (fun nodes => nodes.map fun x => if x < 2 then 0 else 1) 6 3 (List.range 5))).toOption.map
+      fun D => ValidDendro 5 D && heightsSorted D) = some true := by decide
 
 end SkNet.C07
